@@ -26,7 +26,8 @@ Apps == IF CallsOnly THEN {"A", "B", "C"} ELSE IF Rich THEN {"A", "B", "NS :: C"
 TypesOf(app) == IF ~Rich THEN {"T"} ELSE IF TypesOnly /\ app = "A" THEN {"T", "U", "M", "Z"} ELSE IF app = "A" THEN {"T", "U", "B"} ELSE IF app = "B" THEN {"W", "V"} ELSE {"X", "Y"}
 FieldNames == IF Rich THEN {"a", "b", "c", "d", "e", "x"} ELSE {"a"}
 EpNames == IF CallsOnly THEN {"e1", "e2"} ELSE IF Rich THEN {"Ep", "Op", "Get Thing"} ELSE {"Ep"}
-Texts == IF Rich THEN {"do it", "check stock", "validate the order", "done"} ELSE {"do it"}
+\* ("..." is the placeholder statement: it says nothing and is drawn as nothing)
+Texts == IF Rich THEN {"do it", "check stock", "validate the order", "done", "..."} ELSE {"do it"}
 Preds == IF Rich THEN {"x > 5", "item in items", "stock is low", "a == b && c"} ELSE {"ready"}
 
 Prims == IF Rich
@@ -173,7 +174,7 @@ Groups ==
          (IF Len(st.scope) < MaxNest
                  THEN {[k |-> "block", kw |-> kw, text |-> t, pos |-> NoPos] :
                          kw \in {"if", "until", "while", "for each", "for", "alt"}, t \in Preds}
-                      \cup {[k |-> "block", kw |-> "label", text |-> t, pos |-> NoPos] : t \in Texts}
+                      \cup {[k |-> "block", kw |-> "label", text |-> t, pos |-> NoPos] : t \in Texts \ {"..."}}
                       \cup (IF Rich THEN {[k |-> "oneof", pos |-> NoPos]} ELSE {})
                  ELSE {}),
          (IF Len(st.scope) < 6
